@@ -37,6 +37,12 @@ def extra_collections(outdir=None):
         "sort_large": lambda: big.sort_values("a"),
         "sort_large_desc": lambda: big.sort_values("a", ascending=False).v,
         "set_index_then_loc": lambda: big.set_index("a").loc[30.0:200.0],
+        # the new index given as a Series expression rather than a column label, plain and derived
+        "set_index_series_key": lambda: big.set_index(big.a),
+        "set_index_series_key_derived": lambda: big.set_index(big.a * 2 + 1).v,
+        "set_index_series_key_np": lambda: big.set_index(big.v % 50, npartitions=3),
+        "set_index_label_keep": lambda: big.set_index("a", drop=False),
+        "sort_two_keys": lambda: big.sort_values(["k", "a"]),
         "repartition_size": lambda: big.repartition(partition_size="1kB").v,
         "merge_large": lambda: big.merge(big[["k", "v"]].rename(columns={"v": "v2"}), on="k").v2.sum(),
     }
